@@ -549,3 +549,33 @@ Definition check_stacked (tol : Q) (J : list qdens) (steps : list call) (x : lis
 (* conditioning variables of a distribution given by its slots, before and after binding *)
 Definition check_slots (ss : list slot) (keys : list var) (obs_before obs_after : list var) : bool :=
   list_eqb Nat.eqb (cond_vars ss) obs_before && list_eqb Nat.eqb (cond_vars (map (bind_slot keys) ss)) obs_after.
+
+(* ------------------------------------------------------------------------------------------ *)
+(* Branching histories: the harness keeps every object alive.  Object 0 is the joint built by the
+   constructor; OpCond src call obs conditions object number src and appends the result as a new
+   object; OpEval src call v evaluates object number src (an EARLIER object may be evaluated after
+   later objects were derived from it, the same parent may be conditioned several times).  The
+   model is a pure function, so in the model an object never changes: any disagreement on a
+   re-evaluation means the implementation's objects share mutable state. *)
+Inductive hop :=
+  | OpCond (src : nat) (c : call) (ob : stage_obs)
+  | OpEval (src : nat) (c : call) (v : option Q).
+
+Fixpoint check_prog (strict : bool) (tol : Q) (objs : list (option qobj)) (ops : list hop) : bool :=
+  match ops with
+  | [] => true
+  | OpCond src (args, kw) ob :: r =>
+      match nth_error objs src with
+      | Some (Some o) => let o' := obj_cond o args kw in
+                         stage_of tol o' ob && check_prog strict tol (objs ++ [o']) r
+      | _ => false
+      end
+  | OpEval src (args, kw) v :: r =>
+      match nth_error objs src with
+      | Some (Some o) => oq_close tol v (obj_logd strict o args kw) && check_prog strict tol objs r
+      | _ => false
+      end
+  end.
+
+Definition check_history (strict : bool) (tol : Q) (J : list qdens) (ops : list hop) : bool :=
+  check_prog strict tol [Some (OJ FJoint J)] ops.
